@@ -452,6 +452,14 @@ func c18Sequential(c *core.Ctx) {
 			return
 		}
 		wantOwn, wantPs := mon.Dump(own1), mon.Dump(ps1)
+		// the elements of a decoded list are objects of their own (an edit of one is not an edit of
+		// another)
+		for _, res := range []any{own1, ps1} {
+			if what, shared := mon.SharedElems(res); shared {
+				cs.Fail("history/decoded-positions-share-an-object/"+k.String(), core.W{"type": k.String(), "datagram_hex": mon.Hex(in, 200), "what": what})
+				return
+			}
+		}
 		// the spare capacity of a decoded list (not of octet slices, which alias the datagram)
 		// belongs to that list alone: writing into it, as an append by the caller does, changes
 		// nothing the caller can see
